@@ -291,4 +291,354 @@ theorem shiftEntry_inverse (eff eff' n : Int) (he0 : 0 ≤ eff) (he : eff < n)
         split <;> omega
   · rfl
 
+
+/-! ### permutations of positions (shuffle, sort_residues) -/
+
+
+
+theorem getElem?_filterMap_of_all {α β} (f : α → Option β) (l : List α) (h : ∀ x ∈ l, (f x).isSome) (i : Nat) :
+    (l.filterMap f)[i]? = l[i]?.bind f := by
+  induction l generalizing i with
+  | nil => simp
+  | cons x t ih =>
+    have hx := h x (by simp)
+    obtain ⟨y, hy⟩ := Option.isSome_iff_exists.mp hx
+    rw [List.filterMap_cons, hy]
+    cases i with
+    | zero => simp [hy]
+    | succ i => simp [ih (fun z hz => h z (by simp [hz]))]
+
+theorem idxOf_of_getElem? (l : List Nat) (hn : l.Nodup) (i x : Nat) (h : l[i]? = some x) : l.idxOf x = i := by
+  induction l generalizing i with
+  | nil => simp at h
+  | cons y t ih =>
+    simp only [List.nodup_cons] at hn
+    cases i with
+    | zero =>
+      simp at h; subst h; simp
+    | succ i =>
+      simp at h
+      have hxt : x ∈ t := List.mem_of_getElem? h
+      have hne : y ≠ x := fun hh => hn.1 (hh ▸ hxt)
+      rw [List.idxOf_cons, ih hn.2 i h]
+      have : (y == x) = false := by simp [hne]
+      simp [this]
+
+theorem range_filterMap_getElem? {α} (l : List α) : (List.range l.length).filterMap (l[·]?) = l := by
+  apply List.ext_getElem?
+  intro i
+  rw [getElem?_filterMap_of_all]
+  · by_cases hi : i < l.length
+    · rw [List.getElem?_range hi]; simp
+    · have h1 : (List.range l.length)[i]? = none := by simp; omega
+      have h2 : l[i]? = none := by simp; omega
+      rw [h1, h2]; rfl
+  · intro x hx
+    simp at hx
+    simp [hx]
+
+
+theorem posOf?_of_mem (perm : List Nat) (n : Nat) (hp : perm.Perm (List.range n)) (k : Int) (h0 : 0 ≤ k) (h1 : k < n) :
+    posOf? perm k = some (perm.idxOf k.toNat) := by
+  unfold posOf?
+  have : k.toNat ∈ perm := (hp.mem_iff).2 (by simp; omega)
+  simp [h0, this]
+
+theorem permuteWith_spec (a : Annotation) (perm : List Nat) (newSeq : List Char)
+    (hp : perm.Perm (List.range a.seq.length)) (hk : KeysOK a) :
+    ∃ b, permuteWith a perm newSeq = .ok b ∧ b.seq = newSeq ∧
+      (∀ i p, perm[i]? = some p → modsAt b i = modsAt a p) ∧
+      b.isotope = a.isotope ∧ b.static = a.static ∧ b.labile = a.labile ∧ b.unknown = a.unknown ∧
+      b.charge = a.charge ∧ b.adducts = a.adducts ∧ b.nterm = a.nterm ∧ b.cterm = a.cterm ∧
+      b.intervals = a.intervals := by
+  have hnd : perm.Nodup := (hp.nodup_iff).2 List.nodup_range
+  unfold permuteWith
+  cases hd : a.internal with
+  | none =>
+    refine ⟨_, rfl, rfl, ?_, rfl, rfl, rfl, rfl, rfl, rfl, rfl, rfl, rfl⟩
+    intro i p _; simp [modsAt, hd]
+  | some d =>
+    cases d with
+    | nil =>
+      refine ⟨_, rfl, rfl, ?_, rfl, rfl, rfl, rfl, rfl, rfl, rfl, rfl, rfl⟩
+      intro i p _; simp [modsAt, hd, dictGet?]
+    | cons q t =>
+      obtain ⟨_, hr⟩ := hk _ hd
+      have hall : (q :: t).all (fun p => (posOf? perm p.1).isSome) = true := by
+        rw [List.all_eq_true]
+        intro x hx
+        rw [posOf?_of_mem perm _ hp x.1 (hr x hx).1 (hr x hx).2]; rfl
+      simp only [permDict, hall, if_true]
+      refine ⟨_, rfl, rfl, ?_, rfl, rfl, rfl, rfl, rfl, rfl, rfl, rfl, rfl⟩
+      intro i p hip
+      simp only [modsAt, hd]
+      have := dictGet?_map_key (fun k => (((posOf? perm k).getD 0 : Nat) : Int)) (q :: t) (i : Int) (p : Int) (by
+        intro x hx
+        have hx' := hr x hx
+        rw [posOf?_of_mem perm _ hp x.1 hx'.1 hx'.2]
+        simp only [Option.getD_some]
+        constructor
+        · intro h
+          have h' : perm.idxOf x.1.toNat = i := by omega
+          have hmem : x.1.toNat ∈ perm := (hp.mem_iff).2 (by simp; omega)
+          have hlt := List.idxOf_lt_length_iff.2 hmem
+          have hget := List.getElem_idxOf hlt
+          rw [List.getElem?_eq_getElem (by omega)] at hip
+          simp only [Option.some.injEq] at hip
+          have : perm[i]'(by omega) = x.1.toNat := by
+            simp only [← h']; exact hget
+          omega
+        · intro h
+          have : x.1.toNat = p := by omega
+          rw [this, idxOf_of_getElem? perm hnd i p hip])
+      rw [show List.map (permEntry perm) (q :: t) =
+        List.map (fun x => ((((posOf? perm x.1).getD 0 : Nat) : Int), x.2)) (q :: t) from rfl, this]
+
+
+theorem residues_of_permuted (a b : Annotation) (perm : List Nat) (hp : perm.Perm (List.range a.seq.length))
+    (hseq : b.seq = perm.filterMap (a.seq[·]?))
+    (hm : ∀ i p, perm[i]? = some p → modsAt b i = modsAt a p) :
+    residues b = perm.filterMap ((residues a)[·]?) := by
+  have hlt : ∀ x ∈ perm, x < a.seq.length := fun x hx => by
+    have := (hp.mem_iff).1 hx; simpa using this
+  apply List.ext_getElem?
+  intro i
+  rw [residues_getElem?, hseq, getElem?_filterMap_of_all _ _ (fun x hx => by simp [hlt x hx]),
+    getElem?_filterMap_of_all _ _ (fun x hx => by simp [residues_length, hlt x hx])]
+  cases hpi : perm[i]? with
+  | none => rfl
+  | some p =>
+    simp only [Option.bind_some]
+    rw [residues_getElem?, hm i p hpi]
+
+theorem filterMap_getElem?_perm {α} (l : List α) (perm : List Nat) (hp : perm.Perm (List.range l.length)) :
+    (perm.filterMap (l[·]?)).Perm l := by
+  have := hp.filterMap (l[·]?)
+  rw [range_filterMap_getElem?] at this
+  exact this
+
+
+/-! ### stable insertion sort -/
+
+theorem insertBy_perm {α} (key : α → Nat) (x : α) (l : List α) : (insertBy key x l).Perm (x :: l) := by
+  induction l with
+  | nil => exact List.Perm.refl _
+  | cons y t ih =>
+    unfold insertBy
+    split
+    · exact List.Perm.refl _
+    · exact (List.Perm.cons y ih).trans (List.Perm.swap x y t)
+
+theorem sortBy_perm {α} (key : α → Nat) (l : List α) : (sortBy key l).Perm l := by
+  induction l with
+  | nil => exact List.Perm.refl _
+  | cons x t ih => exact (insertBy_perm key x _).trans (List.Perm.cons x ih)
+
+theorem insertBy_map {α β} (f : α → β) (key' : α → Nat) (key : β → Nat) (h : ∀ x, key' x = key (f x)) (x : α)
+    (l : List α) : (insertBy key' x l).map f = insertBy key (f x) (l.map f) := by
+  induction l with
+  | nil => rfl
+  | cons y t ih =>
+    simp only [insertBy, List.map_cons, h]
+    split
+    · rfl
+    · simp [ih]
+
+theorem sortBy_map {α β} (f : α → β) (key' : α → Nat) (key : β → Nat) (h : ∀ x, key' x = key (f x)) (l : List α) :
+    (sortBy key' l).map f = sortBy key (l.map f) := by
+  induction l with
+  | nil => rfl
+  | cons x t ih => simp only [sortBy, List.map_cons, insertBy_map f key' key h, ih]
+
+theorem insertBy_sorted {α} (key : α → Nat) (x : α) (l : List α) (hl : l.Pairwise (fun a b => key a ≤ key b)) :
+    (insertBy key x l).Pairwise (fun a b => key a ≤ key b) := by
+  induction l with
+  | nil => simp [insertBy]
+  | cons y t ih =>
+    unfold insertBy
+    rw [List.pairwise_cons] at hl
+    split
+    · rename_i hxy
+      rw [List.pairwise_cons]
+      refine ⟨?_, List.pairwise_cons.2 hl⟩
+      intro z hz
+      simp only [List.mem_cons] at hz
+      rcases hz with rfl | hz
+      · exact hxy
+      · exact Nat.le_trans hxy (hl.1 z hz)
+    · rename_i hxy
+      rw [List.pairwise_cons]
+      refine ⟨?_, ih hl.2⟩
+      intro z hz
+      have := (insertBy_perm key x t).mem_iff.1 hz
+      simp only [List.mem_cons] at this
+      rcases this with rfl | hz'
+      · omega
+      · exact hl.1 z hz'
+
+theorem sortBy_sorted {α} (key : α → Nat) (l : List α) : (sortBy key l).Pairwise (fun a b => key a ≤ key b) := by
+  induction l with
+  | nil => simp [sortBy]
+  | cons x t ih => exact insertBy_sorted key x _ ih
+
+theorem sortOrder_perm (seq : List Char) : (sortOrder seq).Perm (List.range seq.length) := by
+  unfold sortOrder
+  have := (sortBy_perm (fun (p : Char × Nat) => p.1.toNat) seq.zipIdx).map (·.2)
+  rw [show List.map (fun (x : Char × Nat) => x.2) seq.zipIdx = List.range seq.length by
+    rw [List.range_eq_range']; exact List.zipIdx_map_snd 0 seq] at this
+  exact this
+
+theorem sortBy_seq_eq (seq : List Char) :
+    sortBy (fun (c : Char) => c.toNat) seq = (sortOrder seq).filterMap (seq[·]?) := by
+  unfold sortOrder
+  rw [List.filterMap_map]
+  have h1 : sortBy (fun (c : Char) => c.toNat) seq =
+      (sortBy (fun (p : Char × Nat) => p.1.toNat) seq.zipIdx).map (·.1) := by
+    rw [sortBy_map (·.1) (fun (p : Char × Nat) => p.1.toNat) (fun (c : Char) => c.toNat) (fun _ => rfl)]
+    congr 1
+    exact (List.zipIdx_map_fst 0 seq).symm
+  rw [h1]
+  have hmem : ∀ p ∈ sortBy (fun (p : Char × Nat) => p.1.toNat) seq.zipIdx, seq[p.2]? = some p.1 := by
+    intro p hp
+    have := (sortBy_perm _ _).mem_iff.1 hp
+    exact List.mem_zipIdx_iff_getElem?.1 this
+  generalize sortBy (fun (p : Char × Nat) => p.1.toNat) seq.zipIdx = S at hmem
+  induction S with
+  | nil => rfl
+  | cons p t ih =>
+    simp only [List.map_cons, List.filterMap_cons, Function.comp, hmem p (by simp)]
+    rw [ih (fun q hq => hmem q (by simp [hq]))]
+
+
+/-! ### additive weights -/
+
+
+theorem sum_perm_rat (l1 l2 : List Rat) (h : l1.Perm l2) : l1.sum = l2.sum := by
+  induction h with
+  | nil => rfl
+  | cons x _ ih => simp only [List.sum_cons, ih]
+  | swap x y l =>
+    simp only [List.sum_cons]
+    rw [← Rat.add_assoc, ← Rat.add_assoc, Rat.add_comm y x]
+  | trans _ _ ih1 ih2 => exact ih1.trans ih2
+
+theorem weight_perm (w : Char × List Mod → Rat) (l1 l2 : List (Char × List Mod)) (h : l1.Perm l2) :
+    weight w l1 = weight w l2 :=
+  sum_perm_rat _ _ (h.map w)
+
+theorem weight_append (w : Char × List Mod → Rat) (l1 l2 : List (Char × List Mod)) :
+    weight w (l1 ++ l2) = weight w l1 + weight w l2 := by
+  unfold weight
+  induction l1 with
+  | nil => simp [Rat.zero_add]
+  | cons x t ih => simp only [List.cons_append, List.map_cons, List.sum_cons, ih, Rat.add_assoc]
+
+
+/-! ### slice, split -/
+
+theorem range_flatMap_drop_take {α} (L : List α) :
+    (List.range L.length).flatMap (fun i => (L.drop i).take 1) = L := by
+  induction L with
+  | nil => rfl
+  | cons x t ih =>
+    rw [List.length_cons, List.range_succ_eq_map, List.flatMap_cons, List.flatMap_map]
+    simp only [List.drop_zero, List.take_succ_cons, List.take_zero, List.drop_succ_cons]
+    rw [ih]; rfl
+
+theorem flatMap_congr' {α β} {f g : α → List β} {l : List α} (h : ∀ x ∈ l, f x = g x) :
+    l.flatMap f = l.flatMap g := by
+  induction l with
+  | nil => rfl
+  | cons x t ih => simp [List.flatMap_cons, h x (by simp), ih (fun y hy => h y (by simp [hy]))]
+
+theorem residues_slice (a : Annotation) (s e : Nat) (hs : s ≤ e) (he : e ≤ a.seq.length) :
+    residues (slice a s e) = ((residues a).drop s).take (e - s) := by
+  apply List.ext_getElem?
+  intro i
+  rw [residues_getElem?, slice_seq, pySlice_nat, List.getElem?_take, List.getElem?_take, List.getElem?_drop,
+    List.getElem?_drop, residues_getElem?]
+  have h1 : min s a.seq.length = s := by omega
+  have h2 : min e a.seq.length = e := by omega
+  rw [h1, h2]
+  by_cases hi : i < e - s
+  · simp only [hi, if_true]
+    rw [modsAt_slice a s e i (by omega)]
+  · simp [hi]
+
+theorem residues_congr (a b : Annotation) (h1 : a.seq = b.seq) (h2 : a.internal = b.internal) :
+    residues a = residues b := by
+  unfold residues modsAt; rw [h1, h2]
+
+theorem slice_fields (a : Annotation) (s e : Int) :
+    (slice a s e).nterm = (if s > 0 then none else a.nterm) ∧
+    (slice a s e).cterm = (if e < (a.seq.length : Int) then none else a.cterm) ∧
+    (slice a s e).isotope = a.isotope ∧ (slice a s e).static = a.static ∧ (slice a s e).labile = a.labile ∧
+    (slice a s e).unknown = a.unknown ∧ (slice a s e).charge = a.charge ∧ (slice a s e).adducts = a.adducts := by
+  cases hm : hasMods a
+  · obtain ⟨h1, h2, h3, h4, h5, h6, h7, h8, h9, h10⟩ := (hasMods_false_iff a).1 hm
+    simp [slice, hm, plain, h1, h2, h3, h4, h5, h6, h9, h10]
+  · simp [slice, hm]
+
+/-- both branches of `has_mods` give the same annotation -/
+theorem slice_eq_general (a : Annotation) (s e : Int) : slice a s e = sliceGeneral a s e := by
+  cases hm : hasMods a
+  · obtain ⟨h1, h2, h3, h4, h5, h6, h7, h8, h9, h10⟩ := (hasMods_false_iff a).1 hm
+    simp [slice, sliceGeneral, hm, plain, h1, h2, h3, h4, h5, h6, h7, h8, h9, h10, noneIfEmpty]
+  · simp [slice, sliceGeneral, hm]
+
+theorem pySlice_pySlice_nat {α} (L : List α) (i j k l : Nat) (hij : i ≤ j) (hj : j ≤ L.length) (hkl : k ≤ l)
+    (hl : l ≤ j - i) :
+    pySlice (pySlice L (i : Int) (j : Int)) (k : Int) (l : Int) = pySlice L ((i + k : Nat) : Int) ((i + l : Nat) : Int) := by
+  rw [pySlice_nat, pySlice_nat, pySlice_nat]
+  apply List.ext_getElem?
+  intro x
+  simp only [List.getElem?_take, List.getElem?_drop, List.length_take, List.length_drop]
+  have e1 : min i L.length = i := by omega
+  have e2 : min j L.length = j := by omega
+  have e3 : min (i + k) L.length = i + k := by omega
+  have e4 : min (i + l) L.length = i + l := by omega
+  rw [e1, e2, e3, e4]
+  have e5 : min k (min (j - i) (L.length - i)) = k := by omega
+  have e6 : min l (min (j - i) (L.length - i)) = l := by omega
+  rw [e5, e6]
+  by_cases hx : x < l - k
+  · have hx2 : x < i + l - (i + k) := by omega
+    have hx3 : k + x < j - i := by omega
+    simp only [hx, hx2, hx3, if_true]
+    congr 1; omega
+  · have hx2 : ¬ x < i + l - (i + k) := by omega
+    simp [hx, hx2]
+
+theorem sliceEntry_bind (i j k l : Int) (hk : 0 ≤ k) (hl : i + l ≤ j) (p : Int × List Mod) :
+    (sliceEntry i j p).bind (sliceEntry k l) = sliceEntry (i + k) (i + l) p := by
+  unfold sliceEntry
+  by_cases h1 : i ≤ p.1 ∧ p.1 < j
+  · simp only [h1, and_self, if_true, Option.bind_some]
+    by_cases h2 : k ≤ p.1 - i ∧ p.1 - i < l
+    · have h3 : i + k ≤ p.1 ∧ p.1 < i + l := by omega
+      simp only [h2, h3, and_self, if_true]
+      congr 2; omega
+    · have h3 : ¬ (i + k ≤ p.1 ∧ p.1 < i + l) := by omega
+      simp [h2, h3]
+  · have h3 : ¬ (i + k ≤ p.1 ∧ p.1 < i + l) := by omega
+    simp [h1, h3]
+
+theorem sliceInterval_bind (i j k l : Int) (hk : 0 ≤ k) (hl0 : 0 < l) (hl : i + l ≤ j) (iv : Interval) :
+    (sliceInterval i j iv).bind (sliceInterval k l) = sliceInterval (i + k) (i + l) iv := by
+  unfold sliceInterval
+  by_cases h1 : iv.start < j ∧ iv.stop > i
+  · simp only [h1, and_self, if_true, Option.bind_some]
+    by_cases h3 : iv.start < i + l ∧ iv.stop > i + k
+    · have h2 : max 0 (iv.start - i) < l ∧ max 0 (iv.stop - i) > k := by omega
+      simp only [h2, h3, and_self, if_true]
+      congr 2 <;> omega
+    · have h2 : ¬ (max 0 (iv.start - i) < l ∧ max 0 (iv.stop - i) > k) := by omega
+      simp [h2, h3]
+  · have h3 : ¬ (iv.start < i + l ∧ iv.stop > i + k) := by omega
+    simp [h1, h3]
+
+theorem pySlice_length_nat {α} (L : List α) (i j : Nat) (hij : i ≤ j) (hj : j ≤ L.length) :
+    (pySlice L (i : Int) (j : Int)).length = j - i := by
+  rw [pySlice_nat]; simp; omega
+
 end Pept.Reorder
